@@ -74,6 +74,11 @@ def cases(tier: str, seed: int) -> List[Dict[str, Any]]:
                 for entry in ("raw", "SGD", "AdamW"):
                     out.append({"st": st, "form": "groups", "pform": pform, "lrkind": "float",
                                 "wd": 0.01, "mix": mix, "indep": 1, "entry": entry, "seed": seed})
+        # frozen parameters (requires_grad=False) are still parameters of their group
+        for mix in (0, 1):
+            for entry in ("raw", "SGD", "AdamW"):
+                out.append({"st": st, "form": "groups", "lrkind": "float", "wd": 0.01, "mix": mix, "indep": 1,
+                            "entry": entry, "seed": seed, "frozen": True})
         if any(g[2] for g in st):
             # an explicit per-group weight_decay of exactly 0 (the usual no-decay group) next to a
             # non-zero global decay, and an explicit group lr next to a different global lr
@@ -140,6 +145,8 @@ def run_case(case: Dict[str, Any]) -> Dict[str, Any]:
     ident = f"{entry}|form={form}|lr={lrkind}|indep={int(indep)}|mix={mix}"
     if "own_wd" in case:
         ident += "|own_wd=0"
+    if case.get("frozen"):
+        ident += "|frozen_params"
     one_shot = case.get("pform", "list") in ("generator", "iter")
     if one_shot:
         ident += "|group_params=" + case["pform"]
@@ -171,6 +178,8 @@ def run_case(case: Dict[str, Any]) -> Dict[str, Any]:
             else:
                 p = uu.Parameter(data, tag, 3 if idx % 3 == 0 else None)
                 tagged = True
+            if case.get("frozen") and idx % 3 == 0:
+                p.requires_grad_(False)
             ps.append(p)
             params.append(p)
             src.append({"tagged": tagged, "lr": OWN_LR if ownlr else GLOBAL_LR,
@@ -285,11 +294,14 @@ def run_case(case: Dict[str, Any]) -> Dict[str, Any]:
     if opt is not None and not viol:
         for n in (1, 2, 3):
             for p in params:
-                p.grad = torch.zeros_like(p)
+                if p.requires_grad:
+                    p.grad = torch.zeros_like(p)
             opt.step()
             steps += 1
             for i, (p, p0, s) in enumerate(zip(params, init_vals, src)):
-                if indep:
+                if not p.requires_grad:
+                    want = p0  # no gradient, the optimizer leaves it alone
+                elif indep:
                     want = p0 * (1 - s["wd"]) ** n
                 else:
                     # decay coupled to lr: per step factor (1 - lr_group*wd)
